@@ -24,6 +24,7 @@ enum Op {
 }
 
 struct World {
+    cap: usize,
     b: Arc<Buffer<E>>,
     model: VecDeque<(u8, Vec<u64>)>,
     win: Option<(BufferWriter<E>, Vec<u8>)>,
@@ -44,8 +45,14 @@ fn fail(w: &World, prop: &str, label: &str, what: String) -> String {
 
 impl World {
     fn new() -> World {
+        World::with_pages(1)
+    }
+    /// `pages` pages of 4 samples each: 1 page = capacity 4 (exhaustive search), 3 / 5 / 6 pages = capacities 12 / 20 /
+    /// 24, which are NOT powers of two (position arithmetic done with masks instead of `%` is wrong exactly there)
+    fn with_pages(pages: usize) -> World {
         World {
-            b: Arc::new(Buffer::new(4096).expect("Buffer::new")),
+            cap: CAP * pages,
+            b: Arc::new(Buffer::new(4096 * pages).expect("Buffer::new")),
             model: VecDeque::new(),
             win: None,
             next_val: 1,
@@ -54,7 +61,7 @@ impl World {
         }
     }
     fn free(&self) -> usize {
-        CAP - self.model.len()
+        self.cap - self.model.len()
     }
     fn check(&self) -> Result<(), String> {
         let (r, tags) = self.b.clone().read_buf().map_err(|e| format!("read_buf: {e:?}"))?;
@@ -71,9 +78,9 @@ impl World {
         }
         drop(r);
         let wl = self.b.clone().write_buf().map_err(|e| format!("write_buf: {e:?}"))?.len();
-        if wl + self.model.len() != CAP {
+        if wl + self.model.len() != self.cap {
             return Err(fail(self, "C01", "C01.free.readable-plus-writable-is-capacity",
-                format!("readable {} + writable {} != capacity {}", self.model.len(), wl, CAP)));
+                format!("readable {} + writable {} != capacity {}", self.model.len(), wl, self.cap)));
         }
         let mut want: Vec<(usize, u64)> = vec![];
         for (i, (_, ids)) in self.model.iter().enumerate() {
@@ -159,8 +166,8 @@ impl World {
     }
 }
 
-fn replay(prefix: &[Op]) -> Result<World, String> {
-    let mut w = World::new();
+fn replay(pages: usize, prefix: &[Op]) -> Result<World, String> {
+    let mut w = World::with_pages(pages);
     w.check()?;
     for op in prefix {
         w.apply(op)?;
@@ -168,8 +175,8 @@ fn replay(prefix: &[Op]) -> Result<World, String> {
     Ok(w)
 }
 
-fn dfs(prefix: &mut Vec<Op>, depth: usize, count: &mut u64) -> Result<(), String> {
-    let mut w = replay(prefix)?;
+fn dfs(pages: usize, prefix: &mut Vec<Op>, depth: usize, count: &mut u64) -> Result<(), String> {
+    let mut w = replay(pages, prefix)?;
     *count += 1;
     if depth == 0 {
         return Ok(());
@@ -178,7 +185,7 @@ fn dfs(prefix: &mut Vec<Op>, depth: usize, count: &mut u64) -> Result<(), String
     drop(w);
     for op in ops {
         prefix.push(op);
-        dfs(prefix, depth - 1, count)?;
+        dfs(pages, prefix, depth - 1, count)?;
         prefix.pop();
     }
     Ok(())
@@ -251,9 +258,34 @@ fn bx_ring() {
                 prefix.push(Op::Commit(off, vec![]));
                 prefix.push(Op::Consume(off));
             }
-            res = dfs(&mut prefix, depth, &mut count);
+            res = dfs(1, &mut prefix, depth, &mut count);
             if res.is_err() {
                 break;
+            }
+        }
+    }
+    // capacities that are not powers of two (12, 20, 24 samples): shorter exhaustive search from offsets around the
+    // wrap point and from a full ring
+    if res.is_ok() {
+        'np2: for pages in [3usize, 5, 6] {
+            let cap = CAP * pages;
+            for off in [0, 1, cap / 2, cap - 2, cap - 1] {
+                for fill in [0, 1, cap - 1, cap] {
+                    let mut prefix = vec![];
+                    if off > 0 {
+                        prefix.push(Op::Acquire(off));
+                        prefix.push(Op::Commit(off, vec![]));
+                        prefix.push(Op::Consume(off));
+                    }
+                    if fill > 0 {
+                        prefix.push(Op::Acquire(fill));
+                        prefix.push(Op::Commit(fill, vec![(0, 900), (fill - 1, 901)]));
+                    }
+                    res = dfs(pages, &mut prefix, depth.saturating_sub(2).max(1), &mut count);
+                    if res.is_err() {
+                        break 'np2;
+                    }
+                }
             }
         }
     }
@@ -262,13 +294,15 @@ fn bx_ring() {
     if res.is_ok() {
         let mut seed: u64 = std::env::var("VERIF_SEED").ok().and_then(|s| s.parse().ok()).unwrap_or(1) * 2654435761 + 12345;
         let mut w = World::new();
+        let mut restarts = 0usize;
         'walk: for _ in 0..nrand {
             seed ^= seed << 13;
             seed ^= seed >> 7;
             seed ^= seed << 17;
             if w.trace.len() > 40 {
-                // keep the trace replayable: restart from a fresh buffer now and then
-                w = World::new();
+                // keep the trace replayable: restart from a fresh buffer now and then (capacities 4, 12, 20, 24 in turn)
+                restarts += 1;
+                w = World::with_pages([1, 3, 5, 6][restarts % 4]);
             }
             let ops = w.ops();
             let op = ops[(seed % ops.len() as u64) as usize].clone();
